@@ -97,9 +97,18 @@ func suiteWatch(t *testing.T, cfg cfgT) {
 	l.Logrus().SetOutput(io.Discard)
 	l.Logrus().SetLevel(logrus.PanicLevel)
 	events := 0
+	round := 0
 	for events < cfg.n {
 		hr := r.fork()
 		opl := hr.chance(1, 2)
+		// the first three rounds are scripted: one legacy file per format, valid and invalid versions alternating, the
+		// invalid ones running through every kind (garbage, truncated, complete document + trailing data)
+		scripted := round < 3
+		round++
+		invIdx := 0
+		if scripted {
+			opl = false
+		}
 		base := t.TempDir()
 		dir, stage := filepath.Join(base, "watched"), filepath.Join(base, "stage")
 		_ = os.Mkdir(dir, 0o700)
@@ -109,11 +118,25 @@ func suiteWatch(t *testing.T, cfg cfgT) {
 		if !opl {
 			ext = hr.pick([]string{".json", ".yml", ".toml"})
 		}
+		if scripted {
+			ext = []string{".json", ".yml", ".toml"}[round-1]
+			files = []string{"a"}
+		}
+		pickInv := func(opts []string) string {
+			if scripted {
+				invIdx++
+				return opts[(invIdx-1)%len(opts)]
+			}
+			return hr.pick(opts)
+		}
 		version := 0
 		// content generator: valid or invalid version of one file
 		gen := func(f string) (content string, valid bool, names []string) {
 			version++
 			valid = hr.chance(2, 3)
+			if scripted {
+				valid = version%2 == 1
+			}
 			if opl {
 				n1 := fmt.Sprintf("%s%dx", strings.ToUpper(f), version)
 				n2 := fmt.Sprintf("%s%dy", strings.ToUpper(f), version)
@@ -139,7 +162,17 @@ func suiteWatch(t *testing.T, cfg cfgT) {
 					return fmt.Sprintf("name = %q\nid = %d\n", n, version), true, []string{n}
 				}
 			}
-			return "{{{ not valid [", false, nil
+			// invalid versions: garbage, a truncated document, and a complete document followed by trailing data
+			// (a file in the middle of being overwritten looks like that)
+			switch ext {
+			case ".json":
+				return pickInv([]string{"{{{ not valid [", fmt.Sprintf(`{"name": %q, "id"`, n), fmt.Sprintf(`{"name": %q, "id": %d}}`, n, version),
+					fmt.Sprintf(`{"name": %q, "id": %d}{"name": "tail"}`, n, version), fmt.Sprintf(`{"name": %q, "id": %d} trailing`, n, version)}), false, nil
+			case ".yml":
+				return pickInv([]string{"{{{ not valid [", fmt.Sprintf("name: %s\nid: [%d\n", n, version), fmt.Sprintf("name: %s\n  id: %d\n bad:\n- x\n", n, version)}), false, nil
+			default:
+				return pickInv([]string{"{{{ not valid [", fmt.Sprintf("name = %q\nid = \n", n), fmt.Sprintf("name = %q\nid = %d\n[[[\n", n, version)}), false, nil
+			}
 		}
 		// initial files (loaded by the watcher's initial dispatch)
 		type ev struct {
@@ -148,7 +181,11 @@ func suiteWatch(t *testing.T, cfg cfgT) {
 			names               []string
 		}
 		var initial []ev
-		for _, f := range files[:1+hr.intn(3)] {
+		ninit := 1 + hr.intn(3)
+		if ninit > len(files) {
+			ninit = len(files)
+		}
+		for _, f := range files[:ninit] {
 			c, v, n := gen(f)
 			putFile(dir, stage, f+ext, []byte(c))
 			initial = append(initial, ev{"change", f + ext, c, v, n})
@@ -203,11 +240,14 @@ func suiteWatch(t *testing.T, cfg cfgT) {
 		}
 		smp := startSampler(m)
 		n := 6 + hr.intn(8)
+		if scripted {
+			n = 11
+		}
 		for i := 0; i < n && events < cfg.n; i++ {
 			f := hr.pick(files)
 			before := nsNames(m)
 			var e ev
-			if hr.chance(1, 6) {
+			if !scripted && hr.chance(1, 6) {
 				_ = os.Remove(filepath.Join(dir, f+ext))
 				e = ev{kind: "remove", file: f + ext}
 			} else {
